@@ -227,6 +227,11 @@ func nearTwin(r *rand.Rand, v pcommon.Value, depth int) {
 		if !done && v.Map().Len() == 0 {
 			v.Map().PutEmpty("e")
 		}
+	case pcommon.ValueTypeDouble:
+		// values that compare equal but are not the same bits (and the other way round: NaN)
+		if v.Double() == 0 {
+			v.SetDouble(math.Copysign(0, -1) * math.Copysign(1, v.Double()))
+		}
 	default:
 		if depth > 0 {
 			flip(v)
